@@ -69,7 +69,7 @@ func genL(prop string) func(r *sim.Rng, tier string) any {
 				e.Name = fmt.Sprintf("passthrough:///ca%d.sim", i)
 			}
 			if r.Bool(impostorRate) {
-				e.Identity = pick(r, []string{"other_ca", "self_signed", "expired", "not_yet", "wrong_name"})
+				e.Identity = pick(r, []string{"other_ca", "self_signed", "expired", "just_expired", "not_yet", "wrong_name"})
 				if r.Bool(0.25) {
 					e.Identity, e.TLS = "genuine", "1.1"
 				}
